@@ -84,6 +84,8 @@ def c_keyobj(k):
 def c_keyarg(name):
     """the key part of a key name ('+s:<sender>' removed)"""
     name = name.split("+s:", 1)[0]
+    if name.startswith("call:nested:"):
+        return "(ACall %s)" % c_keyobj(S.keys()[name[len("call:nested:"):]])
     if name.startswith("call:"):
         what = name[5:]
         if what in ("str", "bytes", "emptystr"):
@@ -120,8 +122,16 @@ def run_streams(ctx, dist):
     escapes = {}
     boundary = {}
     n_by = collections.Counter()
+    prev = None
+    hist = {"repeated": 0, "class_changed": 0}
     for (entry, value, keyname, reg, tag) in calls:
         st, ex = S.execute(entry, value, keyname, reg)
+        cls_now = "Ok" if st == "ok" else exn_class(ex)
+        if tag.endswith("|twice") and prev is not None:
+            hist["repeated"] += 1
+            if prev != cls_now:
+                hist["class_changed"] += 1
+        prev = cls_now
         n_by[(tag.split("/")[0], st)] += 1
         if tag.startswith("bnd/"):
             boundary.setdefault(tag[4:], set()).add("Ok" if st == "ok" else exn_class(ex))
@@ -137,6 +147,11 @@ def run_streams(ctx, dist):
         dist["stream %s %s" % k] = v
     # outcome classes per boundary of the content-encryption / key-management layers (genuine tags)
     ctx.coverage["boundary_observations"] = {k: sorted(v) for k, v in sorted(boundary.items())}
+    # histories: every hostile token runs on registries / keys / algorithm singletons that earlier (valid and hostile)
+    # tokens of the same process have used; a sample is offered twice in a row and the outcome class compared
+    ctx.coverage["histories"] = dict(hist, shared_state="one process, shared default registries, key objects and key sets for all %d calls" % len(calls))
+    if hist["class_changed"]:
+        ctx.notes.append("the same token gave two different outcome classes on %d of %d repetitions" % (hist["class_changed"], hist["repeated"]))
     # distinct inputs: by (entry, value) digest, cheap
     ctx.distinct.update({hash((c[0], S.short(c[1], 100000), c[2], c[3])) .to_bytes(8, "big", signed=True) for c in calls})
     for (entry, exc, fn), (size, value, keyname, reg, tag, loc, msg) in sorted(escapes.items(), key=lambda kv: kv[0]):
@@ -194,7 +209,7 @@ def function_cases(ctx, dist):
         for v in shapes:
             if isinstance(k, bytes) or isinstance(v, bytes):
                 continue
-            if ctx.quick and rng.random() < 0.5:
+            if ctx.quick and rng.random() < 0.65:
                 continue
             add("KIn %s %s %s" % (c_pv(k), c_pv(v), c_res(call(lambda: k in v), c_bool)), ("KIn", k, v))
             add("KEq %s %s %s" % (c_pv(k), c_pv(v), c_bool(k == v)), ("KEq", k, v))
@@ -235,7 +250,7 @@ def function_cases(ctx, dist):
         add("FSafeB64 %s %s" % (c_pv(h), c_res(call(_safe_b64_header, h), c_unit)), ("FSafeB64", h))
         add("FCheckSupported %s %s" % (c_pv(h), c_res(call(R.check_supported_header, reg_jws[(False, True)].header_registry, h), c_unit)),
             ("FCheckSupported", h))
-        for (r7, strict), reg in reg_jws.items():
+        for (r7, strict), reg in (rng.sample(list(reg_jws.items()), 2) if ctx.quick else reg_jws.items()):
             add("FJwsCheckHeader %s %s %s %s" % (c_bool(r7), c_bool(strict), c_pv(h), c_res(call(reg.check_header, h), c_unit)),
                 ("FJwsCheckHeader", r7, strict, h))
         w = rng.randrange(3)
@@ -245,6 +260,8 @@ def function_cases(ctx, dist):
             ("FValidateRegistry", w, h, req))
         for strict in (True, False):
             for allowed in ([], jwe_all):
+                if ctx.quick and rng.random() < 0.5:
+                    continue
                 more = rng.random() < 0.7
                 reg = jwe.JWERegistry(algorithms=allowed or None, strict_check_header=strict)
                 add("FJweCheckHeader %s %s %s %s %s" % (c_bool(strict), c_strlist(allowed), c_pv(h), c_bool(more),
@@ -403,7 +420,7 @@ def entry_cases(ctx, calls, dist):
     rng = ctx.rng
     cases, meta = [], []
     eid = {"jws.deserialize_compact": 0, "rfc7797.deserialize_compact": 1, "jwt.decode/jws": 2}
-    cand = [c for c in calls if c[0] in eid and len(c[1]) < 3000 and "+s:" not in c[2]]
+    cand = [c for c in calls if c[0] in eid and isinstance(c[1], (str, bytes)) and len(c[1]) < 3000 and "+s:" not in c[2]]
     rng.shuffle(cand)
     per_tag = collections.Counter()
     picked = []
@@ -412,7 +429,7 @@ def entry_cases(ctx, calls, dist):
         if per_tag[c[4]] < cap:
             per_tag[c[4]] += 1
             picked.append(c)
-    picked = picked[: ctx.scale(1400, 20000)]
+    picked = picked[: ctx.scale(1100, 20000)]
     with VerifyRecorder() as rec:
         for (entry, value, keyname, reg, tag) in picked:
             del rec.log[:]
@@ -441,7 +458,7 @@ def entry_cases(ctx, calls, dist):
             if not good:
                 continue
             strict = reg != "lax"
-            allowed = [] if reg == "default" else S.JWS_ALGS
+            allowed = [] if reg == "default" else S.FEW_JWS if reg == "few" else S.JWS_ALGS
             term = "EJws %s %s %s %s %s %s %s %s" % (c_N(eid[entry]), c_bool(strict), c_strlist(allowed), c_keyarg(keyname), c_cinput(value),
                                                c_list(tbl), vr, c_res(r, c_unit))
             if len(term) > 30000:
@@ -696,7 +713,7 @@ def jwe_entry_cases(ctx, calls, dist, rec):
     rng = ctx.rng
     cases, meta = [], []
     eid = {"jwe.decrypt_compact": 0, "jwt.decode/jwe": 1, "jwe.decrypt_json": 2}
-    cand = [c for c in calls if c[0] in eid and len(json.dumps(S.enc_value(c[1]))) < 4000]
+    cand = [c for c in calls if c[0] in eid and isinstance(c[1], (str, bytes, dict)) and len(json.dumps(S.enc_value(c[1]))) < 4000]
     rng.shuffle(cand)
     per_tag = collections.Counter()
     picked = []
@@ -705,7 +722,7 @@ def jwe_entry_cases(ctx, calls, dist, rec):
         if per_tag[c[4]] < cap:
             per_tag[c[4]] += 1
             picked.append(c)
-    picked = picked[: ctx.scale(1600, 25000)]
+    picked = picked[: ctx.scale(1300, 25000)]
     skipped = 0
     for (entry, value, keyname, reg, tag) in picked:
         rec.reset()
@@ -748,7 +765,7 @@ def jwe_entry_cases(ctx, calls, dist, rec):
         if entry == "jwe.decrypt_json" and not renderable(value):
             continue
         strict = reg != "lax"
-        allowed = [] if reg == "default" else S.JWE_ALL
+        allowed = [] if reg == "default" else S.FEW_JWE if reg == "few" else S.JWE_ALL
         va = reg != "any1"
         vt = "(CBytes (hex \"\"))" if entry == "jwe.decrypt_json" else c_cinput(value)
         dt = c_pv(value) if entry == "jwe.decrypt_json" else "PNone"
@@ -778,7 +795,7 @@ def shard_bounds(cases, shard, max_chars):
 def run_eval(ev, cases):
     """CoqEval with moderate parallelism; a shard whose coqc died without output (the machine is
     shared: out-of-memory kills) is retried once on its own"""
-    res = ev.run(cases, jobs=6)
+    res = ev.run(cases, jobs=12)
     if res["errors"]:
         bounds = dict(shard_bounds(cases, ev.shard, ev.max_chars))
         errors = []
@@ -798,12 +815,50 @@ def run_eval(ev, cases):
     return res
 
 
+# every name exported by the public modules, classified; an unknown exported name fails the check (fail closed)
+EXPORTS = {
+    "joserfc.jws": {"consume": {"deserialize_compact": "jws.deserialize_compact", "deserialize_json": "jws.deserialize_json",
+                                "extract_compact": "jws.extract+validate", "validate_compact": "jws.extract+validate",
+                                "detach_content": "jws.detach+verify (helper; only what verification does with its output is judged)"},
+                    "other": ["JWSAlgModel", "JWSRegistry", "HeaderDict", "HeaderMember", "CompactSignature", "GeneralJSONSignature",
+                              "FlattenedJSONSignature", "GeneralJSONSerialization", "FlattenedJSONSerialization", "serialize_compact", "serialize_json"]},
+    "joserfc.jwe": {"consume": {"decrypt_compact": "jwe.decrypt_compact", "decrypt_json": "jwe.decrypt_json"},
+                    "other": ["JWERegistry", "JWEEncModel", "JWEZipModel", "Recipient", "CompactEncryption", "GeneralJSONEncryption",
+                              "FlattenedJSONEncryption", "encrypt_compact", "encrypt_json", "default_registry"]},
+    "joserfc.jwt": {"consume": {"decode": "jwt.decode/jws + jwt.decode/jwe"},
+                    "other": ["Claims", "Token", "ClaimsOption", "JWTClaimsRegistry", "encode", "check_sensitive_data"]},
+    "joserfc.rfc7797": {"consume": {"deserialize_compact": "rfc7797.deserialize_compact", "deserialize_json": "rfc7797.deserialize_json"},
+                        "other": ["JWSRegistry", "serialize_compact", "serialize_json"]},
+}
+
+
+def check_exports(ctx):
+    import importlib
+    unknown, table = [], {}
+    for mod, t in EXPORTS.items():
+        names = list(getattr(importlib.import_module(mod), "__all__", []))
+        for n in names:
+            if n in t["consume"]:
+                table["%s.%s" % (mod, n)] = t["consume"][n]
+            elif n not in t["other"]:
+                unknown.append("%s.%s" % (mod, n))
+        for n in t["consume"]:
+            if n not in names:
+                unknown.append("%s.%s (listed as consuming entry, no longer exported)" % (mod, n))
+    ctx.coverage["exported_consuming_entries"] = table
+    ctx.coverage["exported_names_not_in_table"] = len(unknown)
+    if unknown:
+        ctx.violation({"kind": "entry-table"}, "exported names the C16 entry table does not know (a new consuming entry point would be unchecked): %s" % unknown,
+                      {"names": unknown, "no_failing_input_found": True, "broken": "harness entry table"})
+
+
 def run(ctx):
     warnings.simplefilter("ignore")
     ok, log = ctx.prove(extra_targets=["model/C16Cases.vo"])
     dist = {}
     t0 = time.time()
     S.ensure_drafts()
+    check_exports(ctx)
     with PrimRecorder() as rec:
         calls, escapes = run_streams(ctx, dist)
         t1 = time.time()
